@@ -30,6 +30,23 @@ def load_known(prop: str):
             [e for e in d.get("fixed", []) if prop in e.get("properties", [e.get("property")])])
 
 
+def run_corpus(ctx, mod, prop: str) -> None:
+    """harness/corpus/<Cxx>.jsonl: minimised inputs on which this property failed before (under a seeded change or a since
+    repaired defect).  They run first, on every run, whatever the seed."""
+    p = os.path.join(C.VERIF, "harness", "corpus", f"{prop}.jsonl")
+    if not os.path.exists(p):
+        return
+    by_kind = {}
+    for line in open(p):
+        if line.strip():
+            c = json.loads(line)
+            if c["kind"] in mod.KINDS:
+                a = c["args"]
+                by_kind.setdefault(c["kind"], []).append(tuple(a) if isinstance(a, list) else a)
+    for k, cases in by_kind.items():
+        ctx.run_cases(mod.KINDS[k], f"corpus:{k}", cases, exhaustive=True)
+
+
 def write_replay(prop: str, seed: int, payload: dict) -> str:
     d = os.path.join(C.VERIF, "replays")
     os.makedirs(d, exist_ok=True)
@@ -158,7 +175,7 @@ def main() -> int:
 
     # 4. correspondence + Spec judgment of observed behaviour --------------------------------
     try:
-        mod.corpus(ctx) if hasattr(mod, "corpus") else None
+        run_corpus(ctx, mod, prop)
         mod.streams(ctx)
     except Exception:
         traceback.print_exc()
